@@ -1,18 +1,36 @@
-(** C11 — once reopened, contents change only through new writes. *)
-From Coq Require Import List NArith.
+(** C11 — once reopened, contents change only through new writes.
+
+    Partial.  The full statement (reads after any maintenance schedule on a recovered store
+    equal the reads right after recovery) is REFUTED on the current tree: value-log GC writes a
+    live old version of a key back into the newest memtable and the versioned lookup (known
+    finding C02-F4) then returns it instead of a newer, already flushed version
+    ([C11_stable_refuted]).  Proved: schedules without GC (rotation, flushes, the L0 move) keep
+    every read ([C11_stable_partial]); the model treats flushes and the move as order-preserving
+    relabellings of the sources, which is C01's maintenance theorem.  Not proved: GC steps whose
+    write-backs are all the visible records of their keys ([maint_safe], the class the
+    correspondence uses to recognise the finding). *)
+From Coq Require Import List NArith Bool.
 From NoKV Require Import Model.Fs Model.Recovery Spec.CrashSpec Proofs.CrashProofs.
 Import ListNotations.
 Local Open Scope N_scope.
 
-(** F4 through GC: value-log GC writes a live old version of a key back into the newest
-    memtable; the versioned lookup stops at the first source holding any version of the key,
-    so a newer version that was flushed earlier is shadowed: an overwritten value reappears. *)
+Theorem C11_stable_partial : forall ms s k,
+  forallb (fun m => negb (is_gc m)) ms = true -> get (maint_all ms s) k = get s k.
+Proof. exact maint_no_gc_stable. Qed.
+Print Assumptions C11_stable_partial.
+
 Theorem C11_stable_refuted :
   exists sync seg nb w ms k,
     let s := recover (crash (exec_all (compile sync w) (init seg nb))) in
     get (maint_all ms s) k <> get s k.
 Proof. exact c11_refuted. Qed.
 Print Assumptions C11_stable_refuted.
+
+(** non-vacuity of the partial theorem on the recovered store of the refutation *)
+Theorem C11_example :
+  get (maint_all [MtFlushAll; MtMove] s11) 1 = OV 2 /\ forallb (fun m => negb (is_gc m)) [MtFlushAll; MtMove] = true.
+Proof. exact maint_example. Qed.
+Print Assumptions C11_example.
 
 (** the boolean oracle used by the correspondence decides the specification *)
 Theorem C11_oracle_decides : forall keys r0 stages,
